@@ -219,6 +219,19 @@ def call_builtin(ex, name, args, kwargs, node):
         if isinstance(m, Seq) and m.concrete and all(isinstance(r_, Seq) and r_.concrete and len(r_.items) == len(m.items) for r_ in m.items):
             return V.DiagIndex(len(m.items))
         raise OutOfSubset("np.diag_indices_from of %r" % (m,), node)
+    if name == "np.array_equal":
+        # np.array_equal(a, b) of two 1-D sequences: same length and the same elements position by position (None is equal to nothing)
+        a_, b_ = (args + [None, None])[:2]
+        if a_ is None or b_ is None:
+            return False
+        if isinstance(a_, Seq) and isinstance(b_, Seq):
+            sa, sb = a_.to_symbolic(), b_.to_symbolic()
+            if sa.arr.sort() != sb.arr.sort():
+                raise OutOfSubset("np.array_equal of sequences with different element sorts", node)
+            q = z3.Int("ae!%d" % len(ex.trace))
+            la, lb = V.to_z3(sa.len()), V.to_z3(sb.len())
+            return z3.And(la == lb, z3.ForAll([q], z3.Implies(z3.And(q >= 0, q < la), z3.Select(sa.arr, q) == z3.Select(sb.arr, q))))
+        raise OutOfSubset("np.array_equal of %r, %r" % (a_, b_), node)
     if name == "np.concatenate":
         # np.concatenate((a, b, ...)) of 1-D sequences (rows of a 2-D sample array count as elements, axis=0): the concatenation in order
         parts = args[0] if args else None
